@@ -34,6 +34,17 @@ impl PartialEq for StringBuf {
         if Arc::ptr_eq(&self.0, &other.0) {
             return true;
         }
-        *self.0.lock().unwrap() == *other.0.lock().unwrap()
+        // Lock the two buffers in a fixed global order (by address):
+        // `a == b` on one thread and `b == a` on another would deadlock if
+        // each side locked its own buffer first.
+        let (first, second) =
+            if Arc::as_ptr(&self.0) < Arc::as_ptr(&other.0) {
+                (&self.0, &other.0)
+            } else {
+                (&other.0, &self.0)
+            };
+        let first = first.lock().unwrap();
+        let second = second.lock().unwrap();
+        *first == *second
     }
 }
